@@ -81,8 +81,8 @@ LedgerSet(name) ==
       [] name = "nested" ->
             LedgersOf(1, {3}, {1, 6}) \cup { l \in LedgersOf(2, {2, 4}, {1, 3, 4, 7}) : l[1].date < l[2].date /\ l[1].ps # l[2].ps }
       [] name = "nestedthorough" ->
-            LedgersOf(1, {3}, AllT) \cup { l \in LedgersOf(2, 2..4, {1, 3, 4, 6, 7, 9}) : l[1].ps # l[2].ps }
-              \cup { l \in LedgersOf(3, {2, 3, 4}, {1, 3, 4, 6}) : l[1].date = 2 /\ l[2].date = 3 /\ l[3].date = 4 }
+            LedgersOf(1, {3}, {1, 6}) \cup { l \in LedgersOf(2, {2, 4}, {1, 3, 4, 6, 7, 9}) : l[1].date < l[2].date /\ l[1].ps # l[2].ps }
+              \cup { l \in LedgersOf(3, {2, 3, 4}, {1, 4, 6}) : l[1].date = 2 /\ l[2].date = 3 /\ l[3].date = 4 /\ l[1].ps # l[2].ps }
 InitNone == InitWith(LedgerSet("none"))
 InitNested == InitWith(LedgerSet("nested"))
 InitNestedThorough == InitWith(LedgerSet("nestedthorough"))
@@ -108,7 +108,7 @@ InnersOf(opens, closes, filters) ==
     { [on |-> TRUE, c |-> c] : c \in { x \in [open : opens, close : closes, clear : BOOLEAN, filter : filters] : HasFrom(x) } }
 InnersQuick == InnersOf(Open03, Close04, {NoFilter, F("onlyt", 2), F("ge", 3)})
 InnersCover == InnersOf(Open03, {-1, 4}, {F("ge", 3)})
-InnersThorough == InnersOf(Open03, Close024, FAll)
+InnersThorough == InnersOf(Open03, Close024, {NoFilter, F("orig", 0), F("onlyt", 2), F("ge", 3), F("lt", 4)})
 OrderStated == <<"open", "close", "clear", "filter">>
 OrderClearFirst == <<"open", "clear", "close", "filter">>
 OrderClearAlso == <<"open", "clear", "close", "clear", "filter">>      \* the recorded edit: CLEAR also applied before CLOSE
